@@ -1298,6 +1298,12 @@ def _run_report(desc):
         pred = None
         if isinstance(out, ImplError):
             impl = out
+            # a screen the LIBRARY's correlation_matrix itself refuses (fewer distinct treatments than the arity: combination_count
+            # raises) is outside what the report can be asked for: the refusal is the library's, the case is dropped
+            from batchie.core import ThetaHolder as _TH
+            lib = impl_call(lambda: real_corr(scr, _TH.concat([holders[c] for c in order])))
+            if isinstance(lib, ImplError) and lib.cls == out.cls:
+                return dict(wire=None, impl=None, pred=None, features=feats + ["correlation_matrix_refuses_screen", "trivial"])
             pred = "analyze_model_evaluation.main() did not write its report on well-formed files: %r" % (out,)
         else:
             impl = [_fl(out.get("mse", float("nan"))), _fl(out.get("mse_variance", float("nan"))),
